@@ -2,7 +2,7 @@
    relation R between the implementation's scope stack and the reference interpreter's
    (chain, heap), given the laws R must satisfy at variable reads, assignments, declarations,
    block entry/exit and calls.  Stages S1..S4 instantiate R. *)
-From Coq Require Import ZArith List Bool Lia.
+From Coq Require Import ZArith List Bool Lia Permutation.
 Require Import NS.theories.F64 NS.theories.StrLib NS.theories.Lang NS.theories.Spec NS.theories.LexResolve.
 Require Import NS.proofs.StrLibProofs NS.proofs.LangUnfold NS.proofs.SpecUnfold NS.proofs.SimBase.
 Import ListNotations.
@@ -101,6 +101,110 @@ Proof.
   - unfold env_shape in *. rewrite <- A. destruct (env s3); [discriminate|]. cbn in *. congruence.
   - rewrite B'. cbn. exact B.
   - eapply hext_trans; [exact C|]. eapply hext_trans; [apply hext_app|exact C'].
+Qed.
+(* ---------- static lemmas: declarations and ids ---------- *)
+Lemma bytes_eqb_sym a : forall b, bytes_eqb a b = bytes_eqb b a.
+Proof.
+  induction a as [|x a IH]; destruct b as [|y b]; cbn; auto.
+  rewrite Z.eqb_sym, IH. reflexivity.
+Qed.
+
+Lemma bytes_eqb_eq a : forall b, bytes_eqb a b = true <-> a = b.
+Proof.
+  induction a as [|x a IH]; destruct b as [|y b]; cbn; split; intros H; try congruence.
+  - apply andb_true_iff in H. destruct H as [H1 H2]. apply Z.eqb_eq in H1. apply IH in H2. congruence.
+  - inversion H; subst. rewrite Z.eqb_refl. cbn. apply IH. reflexivity.
+Qed.
+
+Lemma bytes_eqb_refl a : bytes_eqb a a = true.
+Proof. apply bytes_eqb_eq. reflexivity. Qed.
+
+Lemma set_g_same lv : set_g lv (lv_g lv) = lv.
+Proof. destruct lv; reflexivity. Qed.
+
+Lemma NoDup_app_r {A} (a b : list A) : NoDup (a ++ b) -> NoDup b.
+Proof. induction a as [|x a IH]; cbn; intros H; auto. inversion H; auto. Qed.
+Lemma NoDup_app_l {A} (a b : list A) : NoDup (a ++ b) -> NoDup a.
+Proof.
+  induction a as [|x a IH]; cbn; intros H; [constructor|]. inversion H; subst.
+  constructor; [|auto]. intros Hin. apply H2. apply in_or_app. auto.
+Qed.
+
+Lemma NoDup_app_mid {A} (a b c : list A) : NoDup (a ++ b ++ c) -> NoDup (a ++ c).
+Proof.
+  induction a as [|x a IH]; cbn; intros H.
+  - eapply NoDup_app_r; eauto.
+  - inversion H; subst. constructor; [|auto].
+    intros Hin. apply H2. apply in_app_or in Hin. apply in_or_app. destruct Hin; auto.
+    right. apply in_or_app. auto.
+Qed.
+
+Definition seen_ok (seen : list name) (top : scope) : Prop :=
+  forall n, mem_name n seen = match assoc n top with Some _ => true | None => false end.
+
+Lemma ids_stmts_perm ts : forall top seen,
+  seen_ok seen top ->
+  exists new, decls_after top ts = new ++ top /\
+    Permutation (ids_stmts ts seen) (scope_ids new ++ flat_map ids_stmt ts).
+Proof.
+  induction ts as [|t r IH]; intros top seen Hs.
+  - exists []. split; reflexivity.
+  - assert (Hdef : decls_after top (t :: r) = decls_after top r ->
+                   ids_stmts (t :: r) seen = ids_stmt t ++ ids_stmts r seen ->
+                   exists new, decls_after top (t :: r) = new ++ top /\
+                     Permutation (ids_stmts (t :: r) seen) (scope_ids new ++ flat_map ids_stmt (t :: r))).
+    { intros E1 E2. destruct (IH top seen Hs) as (new & En & Hp). exists new. split; [congruence|].
+      rewrite E2. cbn [flat_map]. rewrite Hp.
+      rewrite !app_assoc. apply Permutation_app_tail. apply Permutation_app_comm. }
+    destruct t; try (apply Hdef; reflexivity).
+    destruct l as [i|]; [|apply Hdef; reflexivity].
+    cbn [ids_stmts decls_after]. rewrite (Hs n).
+    destruct (assoc n top) as [i'|] eqn:Ea.
+    + destruct (IH top seen Hs) as (new & En & Hp). exists new. split; [exact En|exact Hp].
+    + assert (Hs' : seen_ok (n :: seen) ((n, i) :: top)).
+      { intros m. unfold mem_name in *. cbn [existsb assoc]. rewrite (bytes_eqb_sym m n).
+        destruct (bytes_eqb n m); cbn; [reflexivity|apply Hs]. }
+      destruct (IH _ _ Hs') as (new & En & Hp). exists (new ++ [(n, i)]). split.
+      * rewrite En. rewrite <- app_assoc. reflexivity.
+      * rewrite Hp. unfold scope_ids. rewrite map_app. cbn [map snd flat_map ids_stmt app].
+        rewrite <- app_assoc. cbn [app]. apply Permutation_middle.
+Qed.
+
+Lemma chk_stmt_fun top G F sid n ps body fid ls ll :
+  chk_stmt top G F (SFun sid n ps body fid ls ll) =
+  if (match fid, F with Some f, fs :: _ => zopt_eqb (assoc n fs) (Some f) | _, _ => false end
+      && nodup_names ps && (Z.of_nat (length ps) <=? ll)%Z
+      && chk_block (param_scope ps ls 0 [] :: top :: G) ([] :: F) body) then Some top else None.
+Proof. reflexivity. Qed.
+Lemma chk_stmt_if top G F sid c t f :
+  chk_stmt top G F (SIf sid c t f) =
+  if chk_expr (top :: G) F c && chk_block (top :: G) F t
+     && match f with Some fb => chk_block (top :: G) F fb | None => true end
+  then Some top else None.
+Proof. reflexivity. Qed.
+Lemma chk_stmt_loop top G F sid c b :
+  chk_stmt top G F (SLoop sid c b) =
+  if chk_expr (top :: G) F c && chk_block (top :: G) F b then Some top else None.
+Proof. reflexivity. Qed.
+Lemma chk_stmt_block top G F sid b :
+  chk_stmt top G F (SBlock sid b) = if chk_block (top :: G) F b then Some top else None.
+Proof. reflexivity. Qed.
+
+Lemma chk_stmt_top top G F t top' :
+  chk_stmt top G F t = Some top' ->
+  match t with SMake _ _ _ _ => True | _ => top' = top end.
+Proof.
+  destruct t; auto.
+  - rewrite chk_stmt_fun. destruct (_ && _); congruence.
+  - cbn [chk_stmt]. destruct (_ && _); congruence.
+  - cbn [chk_stmt]. destruct (_ && _); congruence.
+  - rewrite chk_stmt_if. destruct (_ && _); congruence.
+  - rewrite chk_stmt_loop. destruct (_ && _); congruence.
+  - rewrite chk_stmt_block. destruct (chk_block _ _ _); congruence.
+  - cbn [chk_stmt]. destruct e; [destruct (chk_expr _ _ _)|]; congruence.
+  - cbn [chk_stmt]. congruence.
+  - cbn [chk_stmt]. congruence.
+  - cbn [chk_stmt]. destruct (chk_expr _ _ _); congruence.
 Qed.
 
 Section Kit.
@@ -439,6 +543,309 @@ Proof.
           rewrite (array_join_only _ Emut Earr Elen). crush IHe.
     }
     all: try qe_done.
+Qed.
+
+(* ---------- static side conditions along a block ---------- *)
+Lemma ST_nodup lv k top ts : TOK lv k top ts -> NoDup (sig_ids (lv :: k)).
+Proof. intros (_ & H & _). eapply NoDup_app_r; eauto. Qed.
+
+Lemma ST_make lv k top sid n i e r :
+  TOK lv k top (SMake sid n (Some i) e :: r) -> assoc n top = None ->
+  exists r', decls_after ((n, i) :: top) r' = lv_sig lv.
+Proof. intros (H & _) Ha. cbn [decls_after] in H. rewrite Ha in H. eauto. Qed.
+
+Lemma ST_step lv k top t r G F top' :
+  TOK lv k top (t :: r) -> chk_stmt top G F t = Some top' -> TOK lv k top' r.
+Proof.
+  intros (Hd & Hn & Hi) Hc. refine (conj _ (conj _ _)).
+  - pose proof (chk_stmt_top _ _ _ _ _ Hc) as Ht.
+    destruct t; try (subst top'; exact Hd).
+    cbn [chk_stmt] in Hc. destruct (chk_expr (top :: G) F e); [|discriminate].
+    cbn [decls_after] in Hd. destruct (assoc n top) as [i'|] eqn:Ea.
+    + destruct (zopt_eqb l (Some i')) eqn:El; [|discriminate]. inversion Hc; subst.
+      destruct l as [x|]; [|discriminate]. exact Hd.
+    + destruct l as [x|]; [|discriminate]. inversion Hc; subst. exact Hd.
+  - cbn [flat_map] in Hn. rewrite <- app_assoc in Hn. eapply NoDup_app_r; eauto.
+  - unfold fn_table in *. cbn [flat_map] in Hi. eapply incl_app_inv in Hi. tauto.
+Qed.
+
+Lemma sig_ids_same lv lv' k : lv_sig lv' = lv_sig lv -> sig_ids (lv' :: k) = sig_ids (lv :: k).
+Proof. intros H. unfold sig_ids. cbn [flat_map]. rewrite H. reflexivity. Qed.
+
+Lemma ST_block lv lv' k top sid b r :
+  TOK lv k top (SBlock sid b :: r) -> lv_sig lv' = lv_sig lv -> BOK (lv' :: k) b.
+Proof.
+  intros (_ & Hn & Hi) Hs. split.
+  - rewrite (sig_ids_same _ _ _ Hs). cbn [flat_map] in Hn. change (ids_stmt (SBlock sid b)) with (ids_block b) in Hn.
+    rewrite <- app_assoc in Hn. eapply NoDup_app_mid; eauto.
+  - unfold fn_table in *. cbn [flat_map fn_table_stmt] in Hi. eapply incl_app_inv in Hi. tauto.
+Qed.
+
+Lemma ST_loop lv lv' k top sid cnd b r :
+  TOK lv k top (SLoop sid cnd b :: r) -> lv_sig lv' = lv_sig lv -> BOK (lv' :: k) b.
+Proof.
+  intros (_ & Hn & Hi) Hs. split.
+  - rewrite (sig_ids_same _ _ _ Hs). cbn [flat_map] in Hn. change (ids_stmt (SLoop sid cnd b)) with (ids_block b) in Hn.
+    rewrite <- app_assoc in Hn. eapply NoDup_app_mid; eauto.
+  - unfold fn_table in *. cbn [flat_map fn_table_stmt] in Hi. eapply incl_app_inv in Hi. tauto.
+Qed.
+
+Lemma ST_if lv lv' k top sid cnd t f r :
+  TOK lv k top (SIf sid cnd t f :: r) -> lv_sig lv' = lv_sig lv ->
+  BOK (lv' :: k) t /\ match f with Some fb => BOK (lv' :: k) fb | None => True end.
+Proof.
+  intros (_ & Hn & Hi) Hs. unfold BOK. rewrite !(sig_ids_same _ _ _ Hs).
+  cbn [flat_map] in Hn.
+  change (ids_stmt (SIf sid cnd t f)) with (ids_block t ++ match f with Some fb => ids_block fb | None => [] end) in Hn.
+  unfold fn_table in *. cbn [flat_map fn_table_stmt] in Hi.
+  apply incl_app_inv in Hi. destruct Hi as [Hi _]. apply incl_app_inv in Hi. destruct Hi as [Hi1 Hi2].
+  rewrite <- !app_assoc in Hn. split; [split|].
+  - eapply NoDup_app_mid with (b := _ ++ _). rewrite <- app_assoc. exact Hn.
+  - exact Hi1.
+  - destruct f as [fb|]; [|exact I]. split; [|exact Hi2].
+    apply NoDup_app_r in Hn. eapply NoDup_app_mid; eauto.
+Qed.
+
+Lemma ST_enter k b fs : BOK k b -> TOK (enter_level b fs) k [] b.
+Proof.
+  intros (Hn & Hi). refine (conj _ (conj _ _)); [reflexivity| |exact Hi].
+  destruct (ids_stmts_perm b [] []) as (new & En & Hp); [intros n; reflexivity|].
+  rewrite app_nil_r in En. unfold sig_ids. cbn [flat_map enter_level lv_sig]. fold (sig_ids k).
+  rewrite En. eapply Permutation_NoDup; [|exact Hn]. unfold ids_block. rewrite Hp.
+  rewrite !app_assoc. apply Permutation_app_tail. apply Permutation_app_comm.
+Qed.
+
+(* ---------- statements ---------- *)
+Lemma Qe_Qt lv k c s h s1 h1 (a : flow * heap) (b : flow * st) :
+  FC s h s1 h1 -> Qe (lv :: k) c s1 h1 a b -> Qt (set_g lv (lv_g lv) :: k) c s h a b.
+Proof.
+  intros HF (E & HR & HF'). rewrite set_g_same. refine (conj E (conj HR _)).
+  apply FC_FCt. eapply FC_trans; eauto.
+Qed.
+
+Lemma sim_rmw_assign k s c h s0 h0 vn i (path : list Z) (v : value) :
+  R k s c h -> FC s0 h0 s h -> vlookup (cv k) vn = Some i ->
+  rsim (Qe k c s0 h0)
+    (sdo root <- read_var h vn c;
+     sdo root' <- of_res (assign_path root path v);
+     sdo h3 <- write_var h vn c root'; sret (FNormal, h3))
+    (match lookup_env (Some i) vn (env s) with
+     | None => PanicM PMutVarMissing
+     | Some root =>
+         bindM (lift (assign_path root path v))
+           (fun root' =>
+            match assign_env (Some i) vn root' (env s) with
+            | Some e' => OkM (FNormal, with_env e' s)
+            | None => PanicM PMutVarMissing
+            end)
+     end).
+Proof.
+  intros HR HF Hl.
+  destruct (read_var_cases h vn c) as [(root & Ev)|Ev]; rewrite Ev; [|exact I].
+  rewrite (K_read _ _ _ _ _ _ _ HR Hl Ev). rewrite sbind_ret.
+  eapply rsim_bind; [apply rsim_lift|]. intros root' ? <-.
+  destruct (write_var_cases h vn c root') as [(h' & Ew)|Ew]; rewrite Ew; [|exact I].
+  rewrite sbind_ret.
+  destruct (K_write _ _ _ _ _ _ _ _ HR Hl Ew) as (e' & Ea & HR').
+  rewrite Ea. apply rsim_ret. refine (conj _ (conj _ _)); cbn [fst snd]; [reflexivity|exact HR'|].
+  eapply FC_trans; [exact HF|]. refine (conj _ (conj _ _)); cbn [with_env env fns].
+  - eapply assign_env_shape; eauto.
+  - reflexivity.
+  - eapply write_var_hext; eauto.
+Qed.
+
+Lemma simT_step n' : SimE n' -> SimB n' -> SimL n' -> SimT (S n').
+Proof.
+  intros IHe IHb IHl lv k t r top' s c h HR Hc Htok.
+  rewrite sexec_S, exec_S. cbv zeta. unfold exec_body.
+  pose proof (chk_stmt_top _ _ _ _ _ Hc) as Htop.
+  assert (Hcv : cv (lv :: k) = lv_g lv :: cv k) by reflexivity.
+  assert (Hcf : cf (lv :: k) = lv_f lv :: cf k) by reflexivity.
+  destruct t.
+  - (* SFun *) subst top'. apply rsim_ret. eapply Qe_Qt; [apply FC_refl|].
+    refine (conj _ (conj _ _)); cbn [fst snd]; auto using FC_refl.
+  - (* SMake *)
+    cbn [chk_stmt] in Hc. rewrite <- Hcv in Hc.
+    destruct (chk_expr (cv (lv :: k)) (cf (lv :: k)) e) eqn:He; [|discriminate].
+    ev_step IHe.
+    destruct (declare_var_cases h0 (cur_of c) n v) as [(h2 & Ed)|Ed]; fold (cur_of c); rewrite Ed; [|exact I].
+    rewrite sbind_ret. apply rsim_ret.
+    assert (HFd : FCt s h (with_env (define_env l n v (env s0)) s0) h2).
+    { eapply FC_FCt_trans; [exact HF|]. refine (conj _ (conj _ _)); cbn [with_env env fns].
+      - apply define_env_tl_shape.
+      - reflexivity.
+      - eapply declare_var_hext; eauto. }
+    destruct (assoc n (lv_g lv)) as [i|] eqn:Ea.
+    + destruct (zopt_eqb l (Some i)) eqn:El; [|discriminate]. inversion Hc; subst top'.
+      destruct l as [x|]; [|discriminate]. cbn in El. apply Z.eqb_eq in El. subst x.
+      rewrite set_g_same. refine (conj _ (conj _ _)); cbn [fst snd]; [reflexivity| |exact HFd].
+      eapply K_decl_old; eauto.
+    + destruct l as [i|]; [|discriminate]. inversion Hc; subst top'.
+      refine (conj _ (conj _ _)); cbn [fst snd]; [reflexivity| |exact HFd].
+      eapply K_decl_new; eauto.
+      * eapply ST_make; eauto.
+      * eapply ST_nodup; eauto.
+  - (* SSet *)
+    subst top'. cbn [chk_stmt] in Hc. rewrite <- Hcv in Hc.
+    destruct (chk_var (cv (lv :: k)) n l && chk_expr (cv (lv :: k)) (cf (lv :: k)) e) eqn:E0; [|discriminate].
+    split_andb. match goal with H : chk_var _ _ _ = true |- _ => apply chk_var_inv in H; destruct H as (i & Hl & ->) end.
+    ev_step IHe.
+    destruct (write_var_cases h0 n c v) as [(h2 & Ew)|Ew]; rewrite Ew; [|exact I].
+    rewrite sbind_ret.
+    destruct (K_write _ _ _ _ _ _ _ _ HR0 Hl Ew) as (e' & Ea & HR').
+    rewrite Ea. apply rsim_ret. eapply Qe_Qt; [exact HF|].
+    refine (conj _ (conj _ _)); cbn [fst snd]; [reflexivity|exact HR'|].
+    refine (conj _ (conj _ _)); cbn [with_env env fns].
+    + eapply assign_env_shape; eauto.
+    + reflexivity.
+    + eapply write_var_hext; eauto.
+  - (* SSetIdx *)
+    subst top'. cbn [chk_stmt] in Hc. rewrite <- Hcv in Hc.
+    destruct (chk_expr (cv (lv :: k)) (cf (lv :: k)) target && chk_expr (cv (lv :: k)) (cf (lv :: k)) e) eqn:E0; [|discriminate].
+    split_andb. ev_step IHe.
+    pose proof (flatten_rel target []) as Hfr.
+    destruct (flatten_target target []) as [[[vn vl] ixs]|] eqn:Eft; rewrite Hfr; [|apply rsim_err].
+    match goal with H : chk_expr _ _ target = true |- _ =>
+      destruct (flatten_chk _ _ _ [] _ _ _ H eq_refl Eft) as [Hv Hix] end.
+    apply chk_var_inv in Hv. destruct Hv as (i & Hl & ->).
+    eapply rsim_bind; [eapply sim_indices; eassumption|].
+    intros [path h1] [path' s1] (E1 & HR1 & HF1). cbn [fst snd] in *. subst path'. cbv beta iota.
+    eapply rsim_mono; [eapply sim_rmw_assign with (s0 := s1) (h0 := h1); eauto using FC_refl|].
+    intros a b HQ. eapply Qe_Qt; [|exact HQ]. eauto using FC_trans.
+  - (* SIf *)
+    subst top'. rewrite chk_stmt_if in Hc. rewrite <- Hcv in Hc.
+    match type of Hc with (if ?c then _ else _) = _ => destruct c eqn:E0; [|discriminate] end.
+    split_andb.
+    destruct (ST_if _ (set_g lv (lv_g lv)) _ _ _ _ _ _ _ Htok eq_refl) as [Hbt Hbf].
+    rewrite set_g_same in Hbt, Hbf.
+    ev_step IHe.
+    eapply rsim_bind; [apply rsim_lift|]. intros b ? <-.
+    destruct b.
+    + eapply rsim_mono; [eapply IHb; eassumption|]. intros a b HQ. eapply Qe_Qt; eauto.
+    + destruct f as [fb|].
+      * eapply rsim_mono; [eapply IHb; eassumption|]. intros a b HQ. eapply Qe_Qt; eauto.
+      * apply rsim_ret. eapply Qe_Qt; [exact HF|].
+        refine (conj _ (conj _ _)); cbn [fst snd]; auto using FC_refl.
+  - (* SLoop *)
+    subst top'. rewrite chk_stmt_loop in Hc. rewrite <- Hcv in Hc.
+    match type of Hc with (if ?c then _ else _) = _ => destruct c eqn:E0; [|discriminate] end.
+    split_andb.
+    pose proof (ST_loop _ (set_g lv (lv_g lv)) _ _ _ _ _ _ Htok eq_refl) as Hb.
+    rewrite set_g_same in Hb.
+    eapply rsim_mono; [eapply IHl; eassumption|]. intros a b HQ. eapply Qe_Qt; eauto using FC_refl.
+  - (* SBlock *)
+    subst top'. rewrite chk_stmt_block in Hc. rewrite <- Hcv in Hc.
+    match type of Hc with (if ?c then _ else _) = _ => destruct c eqn:E0; [|discriminate] end.
+    pose proof (ST_block _ (set_g lv (lv_g lv)) _ _ _ _ _ Htok eq_refl) as Hb.
+    rewrite set_g_same in Hb.
+    eapply rsim_mono; [eapply IHb; eassumption|]. intros a b HQ. eapply Qe_Qt; eauto using FC_refl.
+  - (* SRet *)
+    subst top'. destruct e as [e|].
+    + cbn [chk_stmt] in Hc. rewrite <- Hcv in Hc.
+      destruct (chk_expr (cv (lv :: k)) (cf (lv :: k)) e) eqn:He; [|discriminate].
+      ev_step IHe. apply rsim_ret. eapply Qe_Qt; [exact HF|].
+      refine (conj _ (conj _ _)); cbn [fst snd]; auto using FC_refl.
+    + apply rsim_ret. eapply Qe_Qt; [apply FC_refl|].
+      refine (conj _ (conj _ _)); cbn [fst snd]; auto using FC_refl.
+  - (* SBreak *) subst top'. apply rsim_ret. eapply Qe_Qt; [apply FC_refl|].
+    refine (conj _ (conj _ _)); cbn [fst snd]; auto using FC_refl.
+  - (* SNext *) subst top'. apply rsim_ret. eapply Qe_Qt; [apply FC_refl|].
+    refine (conj _ (conj _ _)); cbn [fst snd]; auto using FC_refl.
+  - (* SExpr *)
+    subst top'. cbn [chk_stmt] in Hc. rewrite <- Hcv in Hc.
+    destruct (chk_expr (cv (lv :: k)) (cf (lv :: k)) e) eqn:He; [|discriminate].
+    ev_step IHe. apply rsim_ret. eapply Qe_Qt; [exact HF|].
+    refine (conj _ (conj _ _)); cbn [fst snd]; auto using FC_refl.
+Qed.
+
+(* ---------- loops, blocks ---------- *)
+Lemma simL_step n' : SimE n' -> SimB n' -> SimL n' -> SimL (S n').
+Proof.
+  intros IHe IHb IHl k cnd body s c h HR Hc Hb Hbok.
+  rewrite sloop_S, exec_loop_S. unfold loop_body.
+  ev_step IHe.
+  eapply rsim_bind; [apply rsim_lift|]. intros b ? <-.
+  destruct (negb b); [qe_done|].
+  eapply rsim_bind; [eapply IHb; eassumption|].
+  intros [fl h2] [fl' s2] (E2 & HR2 & HF2). cbn [fst snd] in *. subst fl'. cbv beta iota.
+  destruct fl; try qe_done.
+  - eapply rsim_mono; [eapply IHl; eassumption|].
+    intros a b' (E & HR' & HF'). refine (conj E (conj HR' _)). eauto using FC_trans.
+  - eapply rsim_mono; [eapply IHl; eassumption|].
+    intros a b' (E & HR' & HF'). refine (conj E (conj HR' _)). eauto using FC_trans.
+Qed.
+
+Lemma env_shape_tl e : env_shape (tl e) = tl (env_shape e).
+Proof. destruct e; reflexivity. Qed.
+
+Lemma TOK_set_g lv k top ts g : TOK lv k top ts -> TOK (set_g lv g) k top ts.
+Proof. intros H. exact H. Qed.
+
+Lemma bindM_lift_ok {A B} (a : A) (f : A -> M B) : bindM (lift (Ok a)) f = f a.
+Proof. unfold lift. cbn. destruct (f a); reflexivity. Qed.
+
+Lemma sim_stmts n' (IHt : SimT n') k0 s0 c0 h0 (HR0 : R k0 s0 c0 h0) :
+  forall ts lv s h fid,
+  R (lv :: k0) s ((fid, None) :: c0) h ->
+  chk_stmts (cv k0) (cf (lv :: k0)) ts (lv_g lv) = true ->
+  TOK lv k0 (lv_g lv) ts ->
+  tl (env_shape (env s)) = env_shape (env s0) -> tl (fns s) = fns s0 -> hext h0 h ->
+  rsim (Qe k0 c0 s0 h0)
+       (sstmts_with (fun t h => sexec eps n' t ((fid, None) :: c0) h) ts h)
+       (stmts_with None (exec None eps n') ts s).
+Proof.
+  induction ts as [|t r IH]; intros lv s h fid HR Hc Htok Hsh Hfn Hh.
+  - rewrite sstmts_with_nil. cbn [stmts_with]. apply rsim_ret.
+    refine (conj _ (conj _ _)); cbn [fst snd]; [reflexivity| |].
+    + eapply K_exit; eauto.
+    + refine (conj _ (conj _ _)); cbn [pop_scope env fns]; auto. rewrite env_shape_tl. exact Hsh.
+  - rewrite sstmts_with_cons. cbn [stmts_with in_plan_stmt].
+    cbn [chk_stmts] in Hc. fold (chk_stmts (cv k0) (cf (lv :: k0))) in Hc.
+    destruct (chk_stmt (lv_g lv) (cv k0) (cf (lv :: k0)) t) as [top'|] eqn:Et; [|discriminate].
+    eapply rsim_bind; [eapply IHt; eassumption|].
+    intros [fl h1] [fl' s1] (E1 & HR1 & (Hsh1 & Hfn1 & Hh1)). cbn [fst snd] in *. subst fl'. cbv beta iota.
+    assert (Hexit : forall fl0 : flow, rsim (@Qe k0 c0 s0 h0 flow) (sret (fl0, h1)) (OkM (fl0, pop_scope s1))).
+    { intros fl0. apply rsim_ret. refine (conj _ (conj _ _)); cbn [fst snd]; [reflexivity| |].
+      - eapply K_exit; eauto; try congruence. eapply hext_trans; eauto.
+      - refine (conj _ (conj _ _)); cbn [pop_scope env fns].
+        + rewrite env_shape_tl. congruence.
+        + congruence.
+        + eapply hext_trans; eauto. }
+    destruct fl; try apply Hexit.
+    eapply (IH (set_g lv top')); eauto; try congruence.
+    + apply TOK_set_g. eapply ST_step; eauto.
+    + eapply hext_trans; eauto.
+Qed.
+
+Lemma simB_step n' : SimT n' -> SimB (S n').
+Proof.
+  intros IHt k b s c h HR Hc Hbok.
+  rewrite sblock_S, exec_block_S. unfold block_body, new_frame. cbv beta iota zeta.
+  rewrite hoist_push, bindM_lift_ok.
+  pose proof Hc as Hc'. unfold chk_block in Hc'.
+  destruct (predecl b) as [fs|] eqn:Ep; [|discriminate]. split_andb.
+  eapply (sim_stmts n' IHt k s c h HR b (enter_level b fs)).
+  - eapply K_enter; eauto.
+  - assumption.
+  - apply ST_enter. exact Hbok.
+  - reflexivity.
+  - reflexivity.
+  - apply hext_new_block.
+Qed.
+
+Theorem kit_sim : forall n, SimE n /\ SimT n /\ SimB n /\ SimL n.
+Proof.
+  induction n as [|n (IHe & IHt & IHb & IHl)].
+  - refine (conj _ (conj _ (conj _ _))); red; intros.
+    + rewrite seval_O. exact I.
+    + rewrite sexec_O. exact I.
+    + rewrite sblock_O. exact I.
+    + rewrite sloop_O. exact I.
+  - refine (conj _ (conj _ (conj _ _))).
+    + apply simE_step; assumption.
+    + apply simT_step; assumption.
+    + apply simB_step; assumption.
+    + apply simL_step; assumption.
 Qed.
 
 End Kit.
